@@ -31,7 +31,7 @@ func runC16(k int, rng *Rng) CaseResult {
 	// a unique + case-constrained key most of the time
 	if rng.P(0.7) {
 		c := cfg.Fields["KS"]
-		c.Index, c.Unique = true, true
+		c.Index, c.Unique, c.UniqueOnly = true, true, rng.P(0.3)
 		if !c.Upper && !c.Lower {
 			if rng.Bool() {
 				c.Upper = true
@@ -78,9 +78,32 @@ func runC16(k int, rng *Rng) CaseResult {
 			// a raw (non-canonical) domain value as probe
 			w.SearchOne(Query{p, "=", pick(w.rng, domCase)})
 			probes++
+			// the same canonicalisation inside And / Or chains, in any position
+			if vs := caseVariants(s); len(vs) > 0 && !w.failed() {
+				cq := Query{p, pick(w.rng, []string{"=", "=", "!=", ">=", "<"}), pick(w.rng, vs)}
+				other := Query{"K", pick(w.rng, []string{">=", "<", "!="}), pick(w.rng, domK)}
+				if p2 := pick(w.rng, cased); w.rng.P(0.4) {
+					v2, _ := leaf(w.m.objs[pick(w.rng, w.m.Live())], p2)
+					s2, _ := v2.(string)
+					if vs2 := caseVariants(s2); len(vs2) > 0 {
+						other = Query{p2, pick(w.rng, []string{"=", "!=", "<="}), pick(w.rng, vs2)}
+					}
+				}
+				conn := pick(w.rng, []string{"and", "and", "or"})
+				if w.rng.Bool() {
+					w.chain([]Query{other, cq}, []string{conn})
+				} else {
+					w.chain([]Query{cq, other, cq}, []string{conn, pick(w.rng, []string{"and", "or"})})
+				}
+				probes++
+			}
 		}
 	}
 	w.Run(o)
+	if !w.failed() && k%3 == 0 {
+		// optional (pointer) string fields: constraints only reachable through a custom schema
+		stats.Count("ptr_observations", int64(w.ptrScenario(false, true)))
+	}
 	var sample interface{}
 	if k < sampleMax {
 		sample = map[string]interface{}{"config": cfg.String(), "ops": w.absOps, "case_constrained_paths": cased, "case_probes": probes}
